@@ -36,7 +36,10 @@ impl EPipe {
             let k = *g.tape.pick(LEAF_KINDS);
             let name = format!("p{}", i);
             let lit = g.lit(k, 2);
-            sets.push(PreSet { name: name.clone(), is_macro: false, value: Expr::Lit(lit) });
+            // a --set value is an expression evaluated on nothing: it sees neither the input nor
+            // the other --set variables, so (default :p0 L) is L whatever the option order
+            let value = if i >= 1 && g.tape.chance(1, 3) { Expr::call("default", vec![Expr::Var(format!("p{}", i - 1)), Expr::Lit(lit)]) } else { Expr::Lit(lit) };
+            sets.push(PreSet { name: name.clone(), is_macro: false, value });
             env.vars.push((name, k));
         }
         let nm = [0usize, 0, 1, 1, 2][g.tape.below(5)];
